@@ -22,6 +22,7 @@
 (* so that DebuggerTrace.tla can replay the hook's lock-ordered event log through the very same    *)
 (* operators. The CPU is the index `ix` into the uninterrupted run R of DbgCpu (deterministic).    *)
 (*                                                                                                 *)
+(* "NextIgnoresCallDepth": next over a jsr stops as soon as pc = pc0 + 3, also inside a nested call.  *)
 (* "StepOutReadsTopOfStack": stepOut trusts the two bytes above the stack pointer (DbgAdapter).     *)
 (* Deviations (DESIGN.md section 3): with "PauseRace" in Deviations the model is implementation-   *)
 (* shaped: MExec does not look at the state again and pause is two critical sections. With the     *)
